@@ -88,6 +88,8 @@ def _cond(sc, extra=None, structural=False):
         c += ",single-particle"
     if extra:
         c += "," + extra
+    if getattr(sc, "release", None) and sc.path == "ct_smc":
+        c += ",observation-released"
     return c
 
 
@@ -158,6 +160,14 @@ def make_scen(rng, path, alg, K, prop, family=None, max_lat_outcomes=32, min_lat
     sc.internal = [i for i in lat if i not in sc.qidx]
     sc.model, sc.src = G.build(net, sc.conv)
     sc.retarget = path.startswith("ct_") or path == "lml_t" or (path in ("rw", "est") and rng.random() < 0.5)
+    # ChangeTarget.run_smc towards a target that no longer observes some of the old target's
+    # observed addresses: the released addresses are re-proposed from the model under the new
+    # arguments (proposal = conditional prior, so they contribute nothing to the weight)
+    sc.release = []
+    if path == "ct_smc" and rng.random() < 0.45:
+        k = int(rng.integers(1, len(sc.obs) + 1))
+        sc.release = sorted(rng.choice(sc.obs, size=k, replace=False).tolist())
+    sc.obs2 = [i for i in sc.obs if i not in sc.release]
     return sc
 
 
@@ -223,8 +233,10 @@ def make_fn(sc):
     P = G.proposal_class()
     keys_of = [G.addr_key(nd.addr) for nd in net.nodes]
 
-    def target_of(params, obs):
-        return Target(sc.model, G.model_args(net, sc.conv, params), G.constraint(net, sc.obs, obs))
+    def target_of(params, obs, idxs=None):
+        if idxs is not None:
+            obs = [o for i, o in zip(sc.obs, obs) if i in idxs]
+        return Target(sc.model, G.model_args(net, sc.conv, params), G.constraint(net, sc.obs if idxs is None else idxs, obs))
 
     def f(key, params, obs, qparams, params2, obs2, ret):
         T = target_of(params, obs)
@@ -238,7 +250,7 @@ def make_fn(sc):
         else:
             q = Marginal(sc.guide)
         alg = Importance(T, q) if sc.alg == "imp" else ImportanceK(T, q, sc.K)
-        T2 = target_of(params2, obs2) if sc.retarget else T
+        T2 = target_of(params2, obs2, sc.obs2 if sc.release else None) if sc.retarget else T
         retchm = G.constraint(net, sc.lat, ret)
         path = sc.path
         pc = None
@@ -357,7 +369,7 @@ def describe(sc):
         "case": _CASE[0],
         "net": sc.net.describe(), "observed": ["/".join(sc.net.nodes[i].addr) for i in sc.obs],
         "algorithm": sc.alg, "K": sc.K, "proposal": sc.prop, "proposal_addresses": ["/".join(sc.net.nodes[i].addr) for i in sc.qidx],
-        "path": sc.path, "calling_convention": {False: "spread", True: "packed", "scalar": "scalar"}[sc.conv], "retarget": bool(sc.retarget),
+        "released_observations": ["/".join(sc.net.nodes[i].addr) for i in getattr(sc, "release", [])], "path": sc.path, "calling_convention": {False: "spread", True: "packed", "scalar": "scalar"}[sc.conv], "retarget": bool(sc.retarget),
     }
 
 
@@ -397,7 +409,10 @@ def check_collection(ctx, sc, rows, out, B):
     terms = len(net) + 2
     # 1. constraints
     okc = np.ones((B, K), dtype=bool)
+    released = list(sc.release) if ct else []
     for i in sc.obs:
+        if i in released:
+            continue
         okc &= vals[i] == _as_idx(net, i, To[i])[:, None]
     ctx.count("particles_constraint_checked", B * K)
     if not okc.all():
@@ -406,9 +421,20 @@ def check_collection(ctx, sc, rows, out, B):
                       detail=f"particle {k} does not hold the target's observations", n_bad=int((~okc).sum()),
                       **_witness(sc, rows, b, {"particle": {str(i): vals[i][b, k].tolist() for i in vals}}))
     lat_vals = {i: vals[i] for i in sc.lat}
-    logp = log_p(sc, Tp, To, lat_vals)
     logq = log_q(sc, rows, lat_vals)
-    exp_lw = logp - logq
+    if released:
+        # score: the joint density of the particle's own values (released addresses included);
+        # weight: the released addresses were drawn from their conditional prior under the new
+        # arguments, so their terms cancel: sum over the other addresses - log q_old(x)
+        vfull = dict(vals)
+        for i in sc.obs2:
+            vfull[i] = np.broadcast_to(_as_idx(net, i, To[i])[:, None], vals[i].shape)
+        logp = R.joint_logp(net, Tp, vfull)
+        exp_lw = R.joint_logp(net, Tp, vfull, [i for i in range(len(net)) if i not in released]) - logq
+        ctx.count("changetarget_released_observation_particles", B * K)
+    else:
+        logp = log_p(sc, Tp, To, lat_vals)
+        exp_lw = logp - logq
     fin = np.isfinite(exp_lw) & okc
     ctx.count("expectation_nonfinite_skipped", int((~np.isfinite(exp_lw)).sum()))
     # 2. score
@@ -648,6 +674,7 @@ def stat_cell(ctx, si, N, reps):
     sc = make_scen(rng, path, alg, K, prop, family=family, max_lat_outcomes=max_lat)
     if kind in ("sir", "csmc_est"):
         sc.retarget = False
+    sc.release, sc.obs2 = [], list(sc.obs)  # released observations: deterministic monitors only
     rows1 = make_rows(rng, sc, 1)
     rows = tile_rows(rows1, N)
     r0 = row0(rows1)
